@@ -13,6 +13,8 @@ from .. import common as C
 from . import _an
 
 PROP = "C06"
+# obligations of the properties this one is downstream of are obligations of this check too (vk.runner.collect_obligations)
+UPSTREAM = ["C05"]
 GEN_REGIONS = ["Attrs"]
 THEOREMS = {
     # calibration for polynomial detrending (orders 1, 2; any basis Q, any window with positive sum, any segment length and bin position):
